@@ -138,7 +138,7 @@ class Netcdf(Input):
         self.thresholds = self._get_thresholds()
         self.quantiles = self._get_quantiles()
         self.variable = self._get_variable()
-        regular_names = self.get_regular_names() + ["threshold", "cdf", "quantile", "x"]
+        regular_names = self.get_regular_names() + ["threshold", "cdf", "quantile", "x", "time", "ensemble"]
         self.other_fields = [var for var in self._file.variables if var not in regular_names]
 
     @staticmethod
